@@ -12,8 +12,10 @@ WORK="$BASE/.shards"
 rm -rf "$WORK"; mkdir -p "$WORK"
 CHECKS=$(python3 -c "import json;print(' '.join(c['property_id'] for c in json.load(open('MANIFEST.json'))['checks']))")
 echo "baseline (no patch):"
+if [ "${SKIP_BASELINE:-0}" != 1 ]; then
 for c in $CHECKS; do VERIF_REPO="$R" ./check "$c" > out.txt 2>&1; rc=$?; [ $rc -ne 0 ] && echo "  $c exit $rc: $(grep -E 'VIOLATION' out.txt | head -1)"; done
-ls -d seeded/*/ | sed 's|seeded/||; s|/||' > "$WORK/all.txt"
+fi
+ls -d seeded/C*/ | sed 's|seeded/||; s|/||' > "$WORK/all.txt"
 k=0
 while [ $k -lt "$SHARDS" ]; do
   (
@@ -26,7 +28,10 @@ while [ $k -lt "$SHARDS" ]; do
     awk -v k=$k -v n="$SHARDS" 'NR % n == k' "$WORK/all.txt" | while read -r id; do
       git -C "$RS" apply "$S/seeded/$id/patch.diff" || { echo "$id: patch does not apply" >> "$WORK/rows$k.txt"; continue; }
       row="$id:"
-      for c in $CHECKS; do
+      LIST="$CHECKS"
+      # OWN=1: only the check of the property the seed was written against (ids are Cxx, Cxxb, ...)
+      if [ "${OWN:-0}" = 1 ]; then LIST=$(echo "$id" | cut -c1-3); fi
+      for c in $LIST; do
         (cd "$S" && VERIF_REPO="$RS" ./check "$c" > out.txt 2>&1); rc=$?
         if [ $rc -eq 1 ]; then
           if grep -q "no-failing-input-found" "$S/out.txt"; then row="$row $c(nf)"; else row="$row $c"; fi
